@@ -40,7 +40,7 @@ func heavyTxn(n *kit.TNode, who, pick int, weight uint64, fee types.Currency) (t
 // weight limit, and pools beyond the ten-block pool limit; the block the
 // repository's miner assembles must be valid and accepted.
 func TestC05Heavy(t *testing.T) {
-	d := kit.NewDirect(t, "C05", "heavy family: for k = 0..40 a pool holding one v2 transaction of weight MaxBlockWeight-k (and, in a second sweep, two transactions summing to MaxBlockWeight-k); plus pools holding more than one block weight in which the transaction that no longer fits has a small dependant behind it, and pools of 11 and 13 near-block-size transactions with distinct fees (beyond the ten-block pool limit). After each: the reported pool validates on the tip, the block MineBlock assembles is valid under core and accepted by AddBlocks, and so is the next one built from the remainder.")
+	d := kit.NewDirect(t, "C05", "heavy family: for k = 0..40 a pool holding one v2 transaction of weight MaxBlockWeight-k (and, in a second sweep, two transactions summing to MaxBlockWeight-k); plus pools holding more than one block weight in which the transaction that no longer fits has a small dependant behind it, a pool of six v1 and six v2 transactions of 0.9 block weights each with interleaved fees (whatever is evicted must pay no more per weight than anything kept), and pools of 11 and 13 near-block-size transactions with distinct fees (beyond the ten-block pool limit). After each: the reported pool validates on the tip, the block MineBlock assembles is valid under core and accepted by AddBlocks, and so is the next one built from the remainder.")
 	defer d.Done()
 	type hcase struct {
 		Family string `json:"family"`
@@ -230,6 +230,122 @@ func TestC05Heavy(t *testing.T) {
 			}
 			return [][]types.V2Transaction{{a}, {p, c}}
 		})
+	}
+	// a pool holding both kinds beyond the ten-block limit: what is evicted must
+	// be what pays least per weight, whichever kind it is and wherever it sits
+	for _, variant := range []int{0, 1} {
+		variant := variant
+		func() {
+			hc := hcase{"mixed-pool-beyond-ten-blocks", variant}
+			mtc := kit.TreeCase{Net: kit.NetSpec{Maturity: 1, Allow: 1, ReqOff: 300, CutOff: 50}}
+			for i := 0; i < 3; i++ {
+				mtc.Blocks = append(mtc.Blocks, kit.BlockSpec{Dt: 1, Miner: i})
+			}
+			tr := kit.BuildTree(mtc)
+			node, err := kit.NewNode(tr, "mem")
+			if err != nil {
+				t.Fatal(err)
+			}
+			defer node.Close()
+			for _, n := range tr.Nodes {
+				if err := node.Submit([]types.Block{n.Block}); err != nil {
+					t.Fatalf("INFRA: %v", err)
+				}
+			}
+			tip := tr.Nodes[len(tr.Nodes)-1]
+			st := tip.Ledger.State
+			cs := &kit.CaseStats{}
+			cs.NonTrivial()
+			cs.Class("heavy:" + hc.Family)
+			type entry struct {
+				id     types.TransactionID
+				fee    types.Currency
+				weight uint64
+				v2     bool
+			}
+			var all []entry
+			var cerr error
+			// v1 transactions of actors 0 and 1, v2 transactions of actors 2 and 3;
+			// fees interleaved so that cheap and dear ones share positions across kinds
+			for i := 0; i < 6 && cerr == nil; i++ {
+				who := i % 2
+				var own []types.SiacoinElement
+				for _, e := range tip.Ledger.SCE {
+					if kit.ActorOf(e.SiacoinOutput.Address) == who && e.MaturityHeight <= tip.Height {
+						own = append(own, e.Copy())
+					}
+				}
+				for a := range own {
+					for b := a + 1; b < len(own); b++ {
+						if own[b].ID.String() < own[a].ID.String() {
+							own[a], own[b] = own[b], own[a]
+						}
+					}
+				}
+				if len(own) < 3 {
+					t.Fatalf("INFRA: actor %d has %d outputs", who, len(own))
+				}
+				fee := types.Siacoins(uint32(100 + 10*i))
+				if variant == 1 {
+					fee = types.Siacoins(uint32(1 + i))
+				}
+				txn := kit.V1SpendPadded(st, own[i/2], who, who, fee, int(maxW*9/10), i)
+				if _, err := node.CM.AddPoolTransactions([]types.Transaction{txn}); err != nil {
+					cerr = fmt.Errorf("%+v: a valid v1 transaction of weight %d was rejected: %v", hc, st.TransactionWeight(txn), err)
+					break
+				}
+				all = append(all, entry{txn.ID(), fee, st.TransactionWeight(txn), false})
+			}
+			for i := 0; i < 6 && cerr == nil; i++ {
+				fee := types.Siacoins(uint32(1 + i))
+				if variant == 1 {
+					fee = types.Siacoins(uint32(100 + 10*i))
+				}
+				txn, ok := heavyTxn(tip, 2+i%2, i/2, maxW*9/10, fee)
+				if !ok {
+					t.Fatalf("INFRA: cannot size v2 transaction %d", i)
+				}
+				if _, err := node.CM.AddV2PoolTransactions(tip.Index(), []types.V2Transaction{txn}); err != nil {
+					cerr = fmt.Errorf("%+v: a valid v2 transaction of weight %d was rejected: %v", hc, st.V2TransactionWeight(txn), err)
+					break
+				}
+				all = append(all, entry{txn.ID(), fee, st.V2TransactionWeight(txn), true})
+			}
+			if cerr == nil {
+				v1, v2, perr := checkPoolValid(node, tip.Ledger, 780)
+				if perr != nil {
+					cerr = fmt.Errorf("%+v: %w", hc, perr)
+				} else {
+					in := map[types.TransactionID]bool{}
+					for _, x := range v1 {
+						in[x.ID()] = true
+					}
+					for _, x := range v2 {
+						in[x.ID()] = true
+					}
+					var kept, gone []entry
+					for _, e := range all {
+						if in[e.id] {
+							kept = append(kept, e)
+						} else {
+							gone = append(gone, e)
+						}
+					}
+					cs.Classf("heavy:mixed-evicted=%d", len(gone))
+					if len(gone) == 0 {
+						cerr = fmt.Errorf("%+v: twelve transactions of 0.9 block weights each are all still pooled: the ten-block limit was not applied", hc)
+					}
+					for _, g := range gone {
+						for _, k := range kept {
+							if g.fee.Div64(g.weight).Cmp(k.fee.Div64(k.weight)) > 0 && cerr == nil {
+								cerr = fmt.Errorf("%+v: the pool is full and evicted %v (v2=%v, fee %v for weight %d) although it keeps %v (v2=%v, fee %v for weight %d), which pays less per weight", hc, g.id, g.v2, g.fee, g.weight, k.id, k.v2, k.fee, k.weight)
+							}
+						}
+					}
+				}
+			}
+			d.Case(hc, cs, cerr)
+		}()
 	}
 	for _, n := range []int{11, 13} {
 		n := n
